@@ -259,18 +259,24 @@ class PythonGlobalInstance(GlobalInstance):
 
     def read(self):
         address = self._get_ptr()
+        rt = self.instance._py_module.rt
         mp = {
             ir.i32: self.instance.load_i32,
             ir.i64: self.instance.load_i64,
+            ir.f32: rt.load_f32,
+            ir.f64: rt.load_f64,
         }
         f = mp[self.ty]
         return f(address)
 
     def write(self, value):
         address = self._get_ptr()
+        rt = self.instance._py_module.rt
         mp = {
             ir.i32: self.instance.store_i32,
             ir.i64: self.instance.store_i64,
+            ir.f32: rt.store_f32,
+            ir.f64: rt.store_f64,
         }
         f = mp[self.ty]
         f(address, value)
